@@ -139,6 +139,10 @@ def run(ctx):
         if got != want:
             ctx.fail("fcs_depends_on_earlier_calls", {"msg": msgs[i].hex(), "lsb_first": lf, "shared_object": True}, want.hex(), got.hex() if isinstance(got, bytes) else got)
             break
+    # the check sequences frames carry: a frame object serialised once and then changed carries the check values of what it
+    # emits now (HCS / FCS are this property's check value as the frame classes compute it)
+    from props import C09
+    C09.reuse_search(ctx, C09.gen_frames(ctx)[:ctx.scale(3000, 30000)], "fcs_of_")
     # other calculator objects - further instances, a subclass with another polynomial constant - do not disturb the X-25
     # check values (the table is a class attribute shared by every instance). Last, because a failure poisons the process.
     guarded(disturb)
@@ -175,6 +179,9 @@ def module_level_calculators():
 
 
 def replay(ctx, rp):
+    if "then" in rp["case"]:
+        from props import C09
+        return C09.replay(ctx, rp)
     msg = bytes.fromhex(rp["case"]["msg"])
     spec = lib.run_model([("spec_x25_fcs", msg)])[0]
     from dlms_cosem import crc
